@@ -3,7 +3,7 @@
    check, doExpr, doSet, suffix, final sort + Rearrange) and the template semantics [tden] / [eval_pred].
    Lemmas: Syn/Templates_proofs.v. *)
 From Coq Require Import List ZArith Bool Lia.
-From TM Require Import Syn.Expr Syn.Expand Syn.ExtLang Syn.Expand_global Syn.Templates Syn.Templates_proofs Syn.Templates_global Syn.Templates_perm.
+From TM Require Import Syn.Expr Syn.Expand Syn.ExtLang Syn.Expand_global Syn.Templates Syn.Templates_proofs Syn.Templates_global Syn.Templates_perm Syn.TemplatesWf Syn.Templates_wf_proofs.
 Import ListNotations.
 Local Open Scope Z_scope.
 
@@ -18,11 +18,19 @@ Local Open Scope Z_scope.
    references in range), evaluated by ./check on every generated model.
    Also proved: the instantiator's predicate evaluation is the declarative one; no_fatal for bound
    predicates/arguments; the per-expression theorem for doExpr (suffix _partial).
-   PROVED (this round): the final sort by (nonterminal, suffix) builds a permutation for EVERY model
-   (C14_sort_is_a_permutation: the model's insertion sort permutes 0..n-1 and perm = its inverse), so the side
-   condition shrinks to [inst_checks_core] (no Fatal branch, instances pairwise different, references in range):
-   C14_instantiate_correct_core.
-   NOT PROVED / NOT MODELLED: that [inst_checks_core] holds for every well-formed model; PropagateLookaheads
+   PROVED: the final sort by (nonterminal, suffix) builds a permutation for EVERY model
+   (C14_sort_is_a_permutation), so the side condition shrinks to [inst_checks_core] (no Fatal branch, instances
+   pairwise different, references in range): C14_instantiate_correct_core.
+   PROVED (this round): [inst_checks_core] follows from the STATIC boolean [TemplatesWf.wf_templates] over the input
+   model (C14_wf_templates_checks), hence C14_instantiate_correct_wf has no hypothesis about the run of the pass.
+   wf_templates: in the body of a nonterminal with parameters P every tested parameter is in P, every reference to a
+   nonterminal is in range and passes exactly the parameters of its target, in the target's order, each one the
+   literal true / false or taken from a parameter in P; inputs and nonterminals named in set expressions have no
+   parameters; fuel exceeds the number of (nonterminal, boolean valuation) pairs.  Proof: every allocated instance is
+   one of these pairs (so its environment binds P with booleans: no TakeFrom Fatal, no Fatal in check), instances
+   are found before they are allocated (pairwise different), hence the work list is no longer than the number of
+   pairs (fuel suffices), and doExpr only writes references to existing instances.
+   NOT PROVED / NOT MODELLED: PropagateLookaheads
    (lookahead flags); the bridge from [lfp] to [Derive.derives] is in Props/C13.v for flat tables (the output of
    Instantiate still contains the extended notation, it is the input of Expand).
    READING of disabled alternatives (pinned by syntax/templates_test.go, `F<T>: a ([T] b) a` => `F: a a`):
@@ -55,6 +63,34 @@ Theorem C14_instantiate_correct_core :
       lfp (nterms m) setden (map val3 (tr_nonterms (instantiate fuel m)))
           (nterms m + Z.of_nat (nth k (inst_perm m (is_list st)) O)) w.
 Proof. intros setden fuel m Hp Hc. apply instantiate_correct_core; [exact Hp | exact Hc | unfold nterms; lia]. Qed.
+
+(* the static predicate implies the run-time side conditions: no Fatal branch, instances pairwise different,
+   references of the instantiated table in range *)
+Theorem C14_wf_templates_checks : forall fuel m, wf_templates fuel m = true -> inst_checks_core fuel m = true.
+Proof. exact wf_templates_checks. Qed.
+
+(* Instantiate as a whole, static hypothesis only *)
+Theorem C14_instantiate_correct_wf :
+  forall setden fuel m,
+    m_params m <> [] -> wf_templates fuel m = true ->
+    let st := snd (inst_loop fuel (nterms m) (m_nonterms m) O (inst_start m) []) in
+    forall k cur, nth_error (is_list st) k = Some cur -> forall w,
+      tlfp (nterms m) setden (m_nonterms m) (nterms m + i_nt cur) (i_sig cur) w <->
+      lfp (nterms m) setden (map val3 (tr_nonterms (instantiate fuel m)))
+          (nterms m + Z.of_nat (nth k (inst_perm m (is_list st)) O)) w.
+Proof. exact instantiate_correct_wf. Qed.
+
+(* doExpr in a well-formed body under the environment of an allocated instance: the Fatal flag is untouched, the
+   instances stay pairwise different (boolean valuations of their nonterminals), the result only mentions
+   existing instances *)
+Theorem C14_do_expr_static :
+  forall T nts P e x st x' st',
+    env_ok P e -> wf_texpr T nts P x = true -> tinv nts st -> do_expr T (Some e) st x = (x', st') ->
+    tinv nts st' /\ is_fatal st' = is_fatal st /\ bounded (T + Z.of_nat (length (is_list st'))) x' = true.
+Proof.
+  intros T nts P e x st x' st' He Hw Hi Hx.
+  destruct (do_expr_wf T nts P e He x st x' st' Hw Hi Hx) as ((A & B & _) & C). auto.
+Qed.
 
 (* the template language is a solution of the template equations *)
 Theorem C14_template_language_is_a_solution :
@@ -104,6 +140,17 @@ Example C14_example :
   /\ pred_bound [(0, s_true); (1, s_false)] (PAnd [PEq 0 s_true; PNot (PEq 1 s_true)]) = true.
 Proof. vm_compute. repeat split; reflexivity. Qed.
 
+Example C14_example_wf : wf_templates 100 ex_tm = true /\ wf_templates 5 ex_tm = false.
+Proof. vm_compute. split; reflexivity. Qed.
+
+(* the static condition matters: an argument taken from a parameter the enclosing nonterminal does not have
+   reaches the TakeFrom Fatal *)
+Example C14_example_not_wf :
+  let m := mkModel [[97]] [mkParam [65] [] false]
+             [mkNt [78; 48] [] (ERef 2 [mkArg 0 [] 0]) 0; mkNt [78; 49] [0] (ERef 0 []) 0] [mkInput 0 false] [] in
+  wf_templates 100 m = false /\ tr_fatal (instantiate 100 m) = true.
+Proof. vm_compute. split; reflexivity. Qed.
+
 Example C14_example_checks : inst_checks 100 ex_tm = true /\ inst_checks_core 100 ex_tm = true /\ m_params ex_tm <> [] /\
   is_list (snd (inst_loop 100 (nterms ex_tm) (m_nonterms ex_tm) O (inst_start ex_tm) [])) =
     [mkInst 0 []; mkInst 1 [(0, s_true); (1, s_false)]; mkInst 1 [(0, s_false); (1, s_false)]].
@@ -112,6 +159,9 @@ Proof. split; [vm_compute; reflexivity|]. split; [vm_compute; reflexivity|]. spl
 Print Assumptions C14_instantiate_correct.
 Print Assumptions C14_sort_is_a_permutation.
 Print Assumptions C14_instantiate_correct_core.
+Print Assumptions C14_wf_templates_checks.
+Print Assumptions C14_instantiate_correct_wf.
+Print Assumptions C14_do_expr_static.
 Print Assumptions C14_template_language_is_a_solution.
 Print Assumptions C14_predicate_evaluation.
 Print Assumptions C14_instantiate_preserves_partial.
